@@ -247,7 +247,7 @@ def run(prog: Program, chk: Check):
     after = flow.reach(cgm, [n.id for n in first_store])
     refusals = [n for n in cgm.nodes if n.id in after and n.kind == "stmt" and isinstance(n.ast, ast.Return)
                 and isinstance(n.ast.value, ast.Constant) and not n.ast.value.value]
-    if len(refusals) < 3:
+    if len(refusals) < 2:
         raise AnalysisError("anchor vanished: connect_module refusal returns")
     rmn = [n for n in cgm.nodes if any(self_call("remove_module")(c) and c.args and path_of(c.args[0]) == cmp_ for c in node_calls(n))]
     for n in refusals:
